@@ -8,7 +8,7 @@ from harness.props import c04
 
 ID = "C08"
 ENTRY = "SearchArray.index(docs, **options) vs SearchArray.index(docs, workers=1, batch_size=huge)"
-LEVEL = "other"
+LEVEL = "proof"
 RULE = ("corpora x batch_size in 1..n+1 x workers in 1..8 x FORCED completion orders of the in-flight futures (wrapped "
         "as_completed yields a seeded permutation) x autowarm / cache_gt_than / avoid_copies / data_dir, thread switch "
         "interval down to 1 microsecond and GIL-yielding tokenizers; every answer (tf, df, positions, lengths, avg, "
